@@ -482,6 +482,12 @@ package geometry
 //@ spec func PolyInv(P *Poly) bool opaque {
 //@     P != nil && (polyExt(P) != nil ==> RingInv(polyExt(P))) &&
 //@     (forall h int :: 0 <= h && h < polyNHoles(P) ==> polyHole(P,h) != nil && RingInv(polyHole(P,h))) }
+// frame: PolyInv(P) reads P.Exterior, P.Holes and the series objects; if those are the same in two states, so is the invariant
+//@ lemma polyInvKeep(P *Poly) twostate
+//@   props C09 C11 C05
+//@   requires old(PolyInv(P)) && P.Exterior == old(P.Exterior) && P.Holes == old(P.Holes)
+//@   requires forall s Series :: RingInv(s) == old(RingInv(s))
+//@   ensures PolyInv(P)
 // the property's definition of polygon membership: on/inside the exterior, not strictly inside any hole
 //@ spec func polyHas(P *Poly, p Point) bool {
 //@     polyExt(P) != nil && pipClosed(polyExt(P), p) && (forall h int :: 0 <= h && h < polyNHoles(P) ==> !pipOpen(polyHole(P,h), p)) }
